@@ -96,6 +96,25 @@ def check_graph(case, sub="graphs"):
         st2 = guarded(sub, icls, rc.density_to_stabilizer, sv.dm(v))
         if rp.group_key(rp.stabilizer_paulis(st2[0][1]), n) != want:
             raise Violation(sub, "state-mismatch", "density_to_stabilizer", icls, "does not denote |G>")
+        # the same graph object, edited in place with node and edge counts unchanged (one edge moved), converted again
+        edges = rg.edges_from_mask(n, mask)
+        non_edges = [pq for pq in rg.pairs(n) if pq not in edges]
+        if edges and non_edges and n <= 5:
+            nodes = list(g.nodes)
+            k = case.get("move", 0)
+            (a, b), (c, d) = edges[k % len(edges)], non_edges[k % len(non_edges)]
+            g.remove_edge(nodes[a], nodes[b])
+            g.add_edge(nodes[c], nodes[d])
+            mask2 = mask ^ (1 << rg.pairs(n).index((a, b))) ^ (1 << rg.pairs(n).index((c, d)))
+            v2 = rg.graph_state(n, mask2)
+            rho5 = guarded(sub, icls + ":edited_in_place", rc.graph_to_density, g)
+            if np.linalg.norm(np.asarray(rho5) - sv.dm(v2)) > 1e-8:
+                raise Violation(sub, "state-mismatch", "graph_to_density", icls + ":edited_in_place",
+                                "after moving an edge of the same graph object the result is not |G><G| of the graph as it is now")
+            res5 = guarded(sub, icls + ":edited_in_place", rc.graph_to_stabilizer, g)
+            if rp.group_key(rp.stabilizer_paulis(res5[0][1]), n) != rp.group_key(rg.graph_stabilizers(n, mask2), n):
+                raise Violation(sub, "state-mismatch", "graph_to_stabilizer", icls + ":edited_in_place", "after moving an edge: does not denote |G>")
+            cl.append("converted_again_after_edit")
         # last, because signed presentations hit a known finding here
         sgn = "graph:negative_sign" if np.any(st_tab.phase) else "graph:positive_signs"
         rho3 = guarded(sub, sgn, rc.stabilizer_to_density, st_tab)
